@@ -484,16 +484,21 @@ CP2K_TEMPLATE = """&GLOBAL
 """
 
 
-def write_xyz_conf(fn, pos, vel, box, names=None):
+def write_xyz_conf(fn, pos, vel, box, names=None, omit_vel=False, append=False):
+    """xyz configuration.  The optional entries of the format can be left out: `box=None`
+    writes a comment line without a "Box:" entry, `omit_vel` writes no velocity columns (the
+    readers of /repo then return box None / zero velocities)."""
     names = names or ["Ar"] * len(pos)
-    with open(fn, "w") as f:
+    with open(fn, "a" if append else "w") as f:
         f.write(f"{len(pos)}\n")
         hdr = "# "
         if box is not None:
             hdr += "Box: " + " ".join(f"{x:9.4f}" for x in box)
+        else:
+            hdr += "phase point without the optional header entries"
         f.write(hdr + "\n")
         for nm, p, v in zip(names, pos, vel):
-            f.write(f"{nm:5s}" + "".join(f" {x:15.9f}" for x in list(p) + list(v)) + "\n")
+            f.write(f"{nm:5s}" + "".join(f" {x:15.9f}" for x in list(p) + ([] if omit_vel else list(v))) + "\n")
 
 
 def write_cp2k_inputs(d, case):
@@ -504,14 +509,18 @@ def write_cp2k_inputs(d, case):
     write_xyz_conf(os.path.join(d, "initial.xyz"), case["pos"], case["vel"], case["box"][:3])
 
 
-def g96_text(pos, vel, box):
+def g96_text(pos, vel, box, omit_vel=False):
+    """g96 configuration; `omit_vel`: no VELOCITY block (read_gromos96_file returns zeros)."""
     out = ["TITLE\nfake\nEND\nPOSITION\n"]
     for i, p in enumerate(pos):
         out.append(f"{1:5d} {'AR':5s} {'AR':5s}{i + 1:7d}" + "".join(f"{x:15.9f}" for x in p) + "\n")
-    out.append("END\nVELOCITY\n")
-    for i, v in enumerate(vel):
-        out.append(f"{1:5d} {'AR':5s} {'AR':5s}{i + 1:7d}" + "".join(f"{x:15.9f}" for x in v) + "\n")
-    out.append("END\nBOX\n" + "".join(f"{x:15.9f}" for x in box) + "\nEND\n")
+    out.append("END\n")
+    if not omit_vel:
+        out.append("VELOCITY\n")
+        for i, v in enumerate(vel):
+            out.append(f"{1:5d} {'AR':5s} {'AR':5s}{i + 1:7d}" + "".join(f"{x:15.9f}" for x in v) + "\n")
+        out.append("END\n")
+    out.append("BOX\n" + "".join(f"{x:15.9f}" for x in box) + "\nEND\n")
     return "".join(out)
 
 
@@ -600,7 +609,10 @@ def make_engine(case, wd):
         e = CP2KEngine(prog, inp, case["timestep"], case["subcycles"], 300.0,
                        sleep=case.get("sleep", 0.1))
         conf = os.path.join(wd, "start.xyz")
-        write_xyz_conf(conf, case["pos"], case["vel"], case["box"][:3])
+        # optional entries of the phase point's file: without "Box:" the engine takes the box
+        # from its input template (read_cp2k_box), without velocity columns they read as zeros
+        write_xyz_conf(conf, case["pos"], case["vel"], None if case.get("omit_box") else case["box"][:3],
+                       omit_vel=bool(case.get("omit_vel")))
         e.set_mdrun({"exe_dir": exe})
     elif eng == "gromacs":
         from infretis.classes.engines.gromacs import GromacsEngine
@@ -609,7 +621,7 @@ def make_engine(case, wd):
         e = GromacsEngine(FAKE["gromacs"], inp, case["timestep"], case["subcycles"], 300.0, exe_path=wd)
         conf = os.path.join(wd, "start.g96")
         with open(conf, "w") as f:
-            f.write(g96_text(case["pos"], case["vel"], case["box"]))
+            f.write(g96_text(case["pos"], case["vel"], case["box"], omit_vel=bool(case.get("omit_vel"))))
         e.set_mdrun({"exe_dir": exe, "wmdrun": prog + " mdrun"})      # grompp/energy: the program itself
     else:
         raise ValueError(eng)
@@ -656,6 +668,26 @@ def recompute_order(engine, conf_file, vel_rev):
     return float(engine.calculate_order(s)[0])
 
 
+def own_box(engine):
+    """Box of an engine that does not take it from the configuration files (TurtleMD: the
+    [engine.box] section of its input)."""
+    import numpy as np
+    try:
+        return np.asarray(engine.box.length, dtype=float)
+    except (AttributeError, TypeError, ValueError):
+        return None
+
+
+def direct_order(engine, pos, vel, box, vel_rev):
+    import numpy as np
+    if box is None:
+        box = own_box(engine)
+    v = np.asarray(vel, dtype=float)
+    s = SimpleNamespace(pos=np.asarray(pos, dtype=float), vel=(-1.0 * v if vel_rev else v),
+                        box=None if box is None else np.asarray(box, dtype=float), vel_rev=bool(vel_rev))
+    return float(engine.order_function.calculate(s)[0])
+
+
 def describe_path(engine, path, tag):
     frames = []
     for k, pp in enumerate(path.phasepoints):
@@ -665,6 +697,12 @@ def describe_path(engine, path, tag):
             out, pos, vel, box = read_frame_back(engine, pp.config, f"{tag}_{k}")
             fr["recomputed"] = recompute_order(engine, out, pp.vel_rev)
             fr["recomputed_flip"] = recompute_order(engine, out, not pp.vel_rev)
+            # the same once more WITHOUT EngineBase.calculate_order (and so without its
+            # "some argument is None -> re-read system.config[0]" route): the order function
+            # applied to this frame's own positions, velocities (times -1 for vel_rev) and box;
+            # a frame whose file carries no box entry has the engine's own box
+            fr["has_box"] = box is not None
+            fr["recomputed_direct"] = direct_order(engine, pos, vel, box, pp.vel_rev)
             fr["pos"] = [[float(x) for x in r] for r in pos]
             fr["vel"] = [[float(x) for x in r] for r in vel]
             fr["box"] = None if box is None else [float(x) for x in box]
@@ -788,6 +826,8 @@ def run_case(case):
                 res["back"] = obs2
             return res
         import c12_inproc
+        if case["engine"] == "calcorder":
+            return c12_inproc.run_calcorder(case)
         return c12_inproc.run_inproc(case)
     finally:
         if case["engine"] in EXTERNAL:
